@@ -23,9 +23,10 @@ import (
 
 // the (larger) alphabet of the random histories
 var (
-	bTexts   = []string{"q1", "q2", "q3", "q4", "q5", "b1", "b2"}
-	bValid   = []string{"q1", "q2", "q3", "q4", "q5"}
+	bTexts   = []string{"q1", "q1x", "q2", "q3", "q4", "q5", "b1", "b2"} // q1x: a near-twin of q1
+	bValid   = []string{"q1", "q1x", "q2", "q3", "q4", "q5"}
 	bWrong   = []string{"x:r1", "x:r2", "x:empty"}
+	bAlt     = []string{"u:q1", "u:q2"} // upper-case hex spellings of a text's digest
 	malAll   = []string{"pq_string", "pq_list", "pq_number", "pq_bool", "ver_string", "ver_float", "hash_object"}
 	malWithH = []string{"ver_string", "ver_float", "hash_object"}
 	bBadVers = []string{"2", "0", "absent", "neg", "big"}
@@ -39,7 +40,11 @@ func constsJSON() []byte {
 	for _, t := range texts {
 		h[t] = "h:" + t
 	}
-	b, _ := json.Marshal(map[string]any{"texts": texts, "valid": bValid, "hashOf": h, "wrong": wrong,
+	canon := map[string]string{}
+	for _, a := range bAlt {
+		canon[a] = "h:" + a[2:]
+	}
+	b, _ := json.Marshal(map[string]any{"texts": texts, "valid": bValid, "hashOf": h, "wrong": wrong, "alt": bAlt, "canon": canon,
 		"malKinds": malAll, "malWithHash": malWithH, "badVers": bBadVers})
 	return b
 }
@@ -57,8 +62,11 @@ func skew(rnd *rand.Rand, n int) int {
 func genReq(rnd *rand.Rand) AReq {
 	text := func() string { return bTexts[skew(rnd, len(bTexts))] }
 	anyHash := func() string {
-		if rnd.Intn(100) < 75 {
+		switch p := rnd.Intn(100); {
+		case p < 70:
 			return "h:" + text()
+		case p < 78:
+			return bAlt[rnd.Intn(len(bAlt))]
 		}
 		return bWrong[rnd.Intn(len(bWrong))]
 	}
@@ -141,7 +149,7 @@ type event struct {
 // at the cache state current when it completed.
 func record(id string, ro rigOpts, method string, n, workers int, seed int64) (*history, error) {
 	rnd := rand.New(rand.NewSource(seed))
-	cc := newConc(rnd, bTexts, bValid, bWrong, method)
+	cc := newConc(rnd, bTexts, bValid, append(append([]string{}, bWrong...), bAlt...), method)
 	rg, err := newRig(ro)
 	if err != nil {
 		return nil, err
@@ -268,7 +276,7 @@ func (h *history) lines() [][]byte {
 }
 
 func (h *history) doc(upto int) replayDoc {
-	d := replayDoc{Mechanism: h.Mech, Rig: h.Rig, Texts: h.cc.Text, Hashes: h.cc.Hash, FailAt: upto}
+	d := replayDoc{Mechanism: h.Mech, Rig: h.Rig, Texts: h.cc.Text, Hashes: h.cc.Hash, Sigs: h.cc.Sig, Twin: h.cc.Twin, FailAt: upto}
 	d.Steps = append(d.Steps, h.Steps[:upto]...)
 	return d
 }
